@@ -152,13 +152,31 @@ func c14R1(c *Ctx) {
 	ast.Inspect(fn.Decl.Body, func(nd ast.Node) bool {
 		if call, ok := nd.(*ast.CallExpr); ok {
 			if sel, ok := ast.Unparen(call.Fun).(*ast.SelectorExpr); ok && sel.Sel.Name == "Write" && len(call.Args) == 1 {
+				// everything the written text is built from, through locals (`key := …; key += …`)
 				seen := map[types.Object]bool{}
-				ast.Inspect(call.Args[0], func(k ast.Node) bool {
-					if id, ok := k.(*ast.Ident); ok {
-						seen[info.ObjectOf(id)] = true
-					}
-					return true
-				})
+				var add func(x ast.Expr, depth int)
+				add = func(x ast.Expr, depth int) {
+					ast.Inspect(x, func(k ast.Node) bool {
+						id, ok := k.(*ast.Ident)
+						if !ok {
+							return true
+						}
+						o := info.ObjectOf(id)
+						if o == nil || seen[o] {
+							return true
+						}
+						seen[o] = true
+						if v, isVar := o.(*types.Var); isVar && !v.IsField() && depth < 4 {
+							for _, d := range varDefs(fn, o) {
+								if d.rhs != nil {
+									add(d.rhs, depth+1)
+								}
+							}
+						}
+						return true
+					})
+				}
+				add(call.Args[0], 0)
 				if seen[params["namespace"]] && seen[params["name"]] && seen[params["ifName"]] {
 					okText = true
 				}
@@ -341,7 +359,7 @@ func c14R3(c *Ctx) {
 	offs := offOf(v4, "Off")
 	ok := len(offs) == 1
 	if ok {
-		v, isC := constInt(v4.Info(), offs[0])
+		v, isC := constInt(v4.Info(), derefExpr(v4, offs[0]))
 		ok = isC && v == 12
 	}
 	c.Check(ok, "C14.R3", "IPv4 source key at offset 12", p.Pos(v4.Decl), v4.Key(), "Off: 12", fmt.Sprintf("%d Off fields", len(offs)))
@@ -349,7 +367,7 @@ func c14R3(c *Ctx) {
 	offs = offOf(dst, "offset")
 	ok = len(offs) == 1
 	if ok {
-		v, isC := constInt(dst.Info(), offs[0])
+		v, isC := constInt(dst.Info(), derefExpr(dst, offs[0]))
 		ok = isC && v == 16
 	}
 	c.Check(ok, "C14.R3", "IPv4 destination key at offset 16", p.Pos(dst.Decl), dst.Key(), "offset: 16", fmt.Sprintf("%d offset fields", len(offs)))
@@ -386,11 +404,21 @@ func c14R3(c *Ctx) {
 			if o == nil {
 				return "?"
 			}
-			ds := varDefs(fn, o)
-			if len(ds) != 1 || ds[0].rhs == nil {
-				return "?"
+			// the definition of the slice that is read, through plain copies of it
+			for hop := 0; hop < 4; hop++ {
+				ds := varDefs(fn, o)
+				if len(ds) != 1 || ds[0].rhs == nil {
+					return "?"
+				}
+				if next := identObj(info, ds[0].rhs); next != nil {
+					if _, isVar := next.(*types.Var); isVar {
+						o = next
+						continue
+					}
+				}
+				return exprString(ds[0].rhs)
 			}
-			return exprString(ds[0].rhs)
+			return "?"
 		}
 		m, v := pair(maskKey), pair(valKey)
 		okPair := strings.Contains(m, ".Mask)") && !strings.Contains(m, ".IP.Mask(") && strings.Contains(v, ".IP.Mask(")
@@ -407,21 +435,43 @@ func c14R3(c *Ctx) {
 	if loop == nil {
 		c.Bad("C14.R3", "IPv6 source keys built in a loop over the four words", p.Pos(v6.Decl), v6.Key(), "for i := 0; i < 4; i++", "no for loop")
 	} else {
+		// the loop variable takes the values start, start+step, … below the bound: iteration k = 0..n-1
 		okLoop := false
 		var iObj types.Object
+		start, step := int64(0), int64(1)
+		unconv := func(x ast.Expr) ast.Expr {
+			x = ast.Unparen(x)
+			if call, ok := x.(*ast.CallExpr); ok && len(call.Args) == 1 && info.Types[call.Fun].IsType() {
+				return ast.Unparen(call.Args[0])
+			}
+			return x
+		}
 		if as, isAs := loop.Init.(*ast.AssignStmt); isAs && len(as.Lhs) == 1 {
 			iObj = identObj(info, as.Lhs[0])
-			if v, isC := constInt(info, as.Rhs[0]); isC && v == 0 {
+			if v, isC := constInt(info, unconv(as.Rhs[0])); isC {
 				if be, isBe := ast.Unparen(loop.Cond).(*ast.BinaryExpr); isBe && be.Op == token.LSS && identObj(info, be.X) == iObj {
-					if b, isC := constInt(info, be.Y); isC && b == 4 {
-						if inc, isInc := loop.Post.(*ast.IncDecStmt); isInc && inc.Tok == token.INC && identObj(info, inc.X) == iObj {
-							okLoop = true
+					if b, isC := constInt(info, unconv(be.Y)); isC {
+						st := int64(0)
+						switch post := loop.Post.(type) {
+						case *ast.IncDecStmt:
+							if post.Tok == token.INC && identObj(info, post.X) == iObj {
+								st = 1
+							}
+						case *ast.AssignStmt:
+							if post.Tok == token.ADD_ASSIGN && len(post.Lhs) == 1 && identObj(info, post.Lhs[0]) == iObj {
+								if sv, isC := constInt(info, unconv(post.Rhs[0])); isC && sv > 0 {
+									st = sv
+								}
+							}
+						}
+						if st > 0 && (b-v+st-1)/st == 4 {
+							okLoop, start, step = true, v, st
 						}
 					}
 				}
 			}
 		}
-		c.Check(okLoop, "C14.R3", "IPv6 source loop runs over exactly the four 32-bit words", p.Pos(loop), v6.Key(), "for i := 0; i < 4; i++ (constant bound)", "bounds not constant 0..4")
+		c.Check(okLoop, "C14.R3", "IPv6 source loop runs over exactly the four 32-bit words", p.Pos(loop), v6.Key(), "four iterations with constant bounds (for i := 0; i < 4; i++ or an equivalent stride)", "the bounds do not give four iterations")
 		// --- which word does iteration i read, and where does it put it? ---
 		// Two addressing schemes give "word i": a cursor that advances by one word in every
 		// iteration (mask = mask[4:]) read at its start, or a fixed slice read at offset 4·i.
@@ -448,7 +498,7 @@ func c14R3(c *Ctx) {
 			switch t := x.(type) {
 			case *ast.Ident:
 				if info.ObjectOf(t) == iObj {
-					return 1, 0, true
+					return step, start, true // in terms of the iteration number k
 				}
 				if d := derefExpr(v6, t); d != ast.Expr(t) {
 					return lin(d, depth+1)
@@ -485,7 +535,7 @@ func c14R3(c *Ctx) {
 			if !isCall || len(call.Args) != 1 || !strings.HasSuffix(exprString(call.Fun), "BigEndian.Uint32") {
 				return nil, false, "not a BigEndian.Uint32 read"
 			}
-			arg := ast.Unparen(call.Args[0])
+			arg := ast.Unparen(derefExpr(v6, call.Args[0]))
 			if o := identObj(info, arg); o != nil {
 				if adv[o] {
 					return o, true, "cursor"
